@@ -80,6 +80,17 @@ static void printHashMode(u8_t mode)
     strlog(hm, hash);
 }
 /*
+parseModeNumber: decimal mode number, -1 if the text is not a number or does not fit
+*/
+static int parseModeNumber(const char *arg)
+{
+    char *end = NULL;
+    long v = strtol(arg, &end, 10);
+    if (end == arg || *end != '\0' || v < 0 || v > 127)
+        return -1;
+    return (int)v;
+}
+/*
 parseOpts:解析选项
 c:选项字符
 res:参数包指针
@@ -164,7 +175,7 @@ bool parseOpts(char c, vpak_t *res)
     case 1:
         if (res->ctype == -1)
         {
-            tnum = atoi(optarg);
+            tnum = parseModeNumber(optarg);
             if (tnum < 0 || tnum > 127)
             {
                 strlog("Error :", "Wrong ctype");
@@ -182,7 +193,7 @@ bool parseOpts(char c, vpak_t *res)
     case 2:
         if (res->htype == -1)
         {
-            tnum = atoi(optarg);
+            tnum = parseModeNumber(optarg);
             if (tnum < 0 || tnum > 127)
             {
                 strlog("Error :", "Wrong htype");
